@@ -165,12 +165,24 @@ pub fn run(ctx: &Ctx) -> Report
     rep.assume("any two distinct file writes carry distinct modification times (Distinct clock)");
     let (cases, max_rules, max_ops) = ctx.tier.pick((15000u32, 6usize, 16usize), (200000, 12, 40));
     rep.absorb(drive::drive(ctx, 1, cases, || strategy(max_rules, max_ops), test_case));
+    // end-to-end anchor: a slice of histories through the real binary and file system with /bin/sh commands
+    let mut real = crate::verif::props::realp::run_c01_real(ctx, ctx.tier.pick(24, 300));
+    for f in real.1.iter_mut()
+    {
+        f.case = serde_json::json!({ "real_fs": f.case });
+    }
+    rep.absorb(real);
     rep
 }
 
 pub fn replay(_ctx: &Ctx, case: &serde_json::Value) -> Result<(), String>
 {
-    let c: HistoryCase = drive::parse_case(case)?;
     let mut st = Stats::default();
+    if let Some(inner) = case.get("real_fs")
+    {
+        let c: crate::verif::props::realp::RealCase = drive::parse_case(inner)?;
+        return crate::verif::props::realp::c01_real(&c, &mut st);
+    }
+    let c: HistoryCase = drive::parse_case(case)?;
     test_case(&c, &mut st)
 }
